@@ -78,7 +78,10 @@ def run(tier):
     jobs, meta = [], []
 
     def add(src, ctx, exp, key):
-        jobs.append({"ctx": ctx, "steps": [{"op": "render_str", "src": src, "auto": False}]})
+        steps = [{"op": "render_str", "src": src, "auto": False}]
+        if len(jobs) % 3 == 0:
+            steps.append({"op": "render_str", "src": src, "auto": False, "one_off": True})      # Tera::one_off: same engine, own instance
+        jobs.append({"ctx": ctx, "steps": steps})
         meta.append((src, exp, key))
 
     for v in r.tags["VEC"]:
@@ -163,6 +166,8 @@ def run(tier):
             bigop = True
         if bigop:
             C.nontrivial([key["op"], key.get("a"), key.get("b")])
+        if len(rr) == 2 and (rr[1].get("ok"), rr[1].get("out")) != (x.get("ok"), x.get("out")):
+            C.violation(dict(key, kind="one-off"), "%s with %s: render_str gives %r, Tera::one_off %r" % (src, job["ctx"], x.get("out") if x.get("ok") else "error", rr[1].get("out") if rr[1].get("ok") else "error"), {"job": job})
         if x.get("panic") or x.get("abort"):
             C.violation(dict(key, kind="panic"), "panic on %s with %s" % (src, job["ctx"]), {"job": job, "result": x})
         elif exp is None:
